@@ -5,6 +5,7 @@ Every probe is one module of the package `mypkg`; `mypkg.other` provides a funct
 from __future__ import annotations
 
 PROBES = {
+ "placeholder_names": "def on_event(_, __, value: int = 0, ___: str = '') -> int:\n    return value\n\nclass __:\n    def m(self, _x_, X__y, __z: int = 1) -> None:\n        pass\n\ndef _9lives(a1_: int, A_B_C: int = 2) -> None:\n    pass\n",
  "ret_list": "def f(x):\n    return [x]\n",
  "ret_binop": "def f(x):\n    return x + 1\n",
  "ret_dict": "def f(x):\n    return {1: x}\n",
